@@ -219,6 +219,9 @@ def _list(eng, x=()):
 
 
 def _tuple(eng, x=()):
+    if isinstance(x, (SeqV, SymList)) and eng.known_length(x) is None:
+        f = ufunc("tuple_of", Obj, Obj)
+        return f(eng.box(x))
     if is_obj(x):
         known = eng.known_length(x)
         if known is None:
